@@ -33,6 +33,9 @@ struct LCase {
     start: u64,
     step: u64,
     ops: Vec<LOp>,
+    /// after every second call the authorizer is replaced by the one restored from its own snapshot:
+    /// consumed iterations, facts and time must survive (transparent for the model)
+    snap: bool,
 }
 
 fn token_err(e: &biscuit_auth::error::Token) -> LRes {
@@ -97,6 +100,19 @@ fn run_lcase(c: &LCase, keys: &Keys, rng: &mut Rng) -> Option<Vec<Obs>> {
                 READS.with(|r| r.borrow_mut().push(after - before));
                 let ex = az.execution_time().map(|d| d.as_nanos() as u64);
                 out.push((res, az.iterations(), az.fact_count() as u64, ex));
+                if c.snap && out.len() % 2 == 1 {
+                    // snapshot / restore between two calls: the restored authorizer carries on
+                    let restored = std::panic::catch_unwind(std::panic::AssertUnwindSafe(|| {
+                        az.to_raw_snapshot().ok().and_then(|b| biscuit_auth::Authorizer::from_raw_snapshot(&b).ok())
+                    }));
+                    match restored {
+                        Ok(Some(a2)) => az = a2,
+                        _ => {
+                            out.push((LRes::Other("snapshot / restore of the authorizer failed between two calls".into()), 0, 0, None));
+                            break;
+                        }
+                    }
+                }
             }
         }
     }
@@ -159,6 +175,14 @@ fn chain_case(rng: &mut Rng) -> LCase {
             scopes: vec![],
         });
     }
+    // one program in six has no rule at all (neither token nor authorizer): the budgets bind all the same
+    let wide = if rng.chance(1, 6) {
+        rules.clear();
+        0
+    } else {
+        wide
+    };
+    let norules = rules.is_empty();
     let in_token = rng.chance(1, 2);
     let q = |body: Vec<DPred>, exprs: Vec<Vec<Op>>| ARule { rule: DRule { head: pr("query", vec![]), body, exprs }, scopes: vec![] };
     let mut checks = vec![];
@@ -185,7 +209,7 @@ fn chain_case(rng: &mut Rng) -> LCase {
     let auth = AAuth { facts: afacts, rules: arules, checks: if in_token { vec![] } else { checks }, policies, scopes: vec![] };
     // final number of facts: initial + L derived p + wide * (L+1)
     let n_init = 1 + l;
-    let n_final = n_init + l + wide * (l + 1);
+    let n_final = if norules { n_init } else { n_init + l + wide * (l + 1) };
     let max_iter = match rng.below(8) {
         0 => 0,
         1 => 1,
@@ -221,7 +245,8 @@ fn chain_case(rng: &mut Rng) -> LCase {
             _ => LOp::Query,
         })
         .collect();
-    LCase { blocks, auth, max_facts, max_iter, max_time, start: 1000, step, ops }
+    let snap = rng.chance(1, 3);
+    LCase { blocks, auth, max_facts, max_iter, max_time, start: 1000, step, ops, snap }
 }
 
 /// Stored witness of the known finding: a run that times out, then a retry that succeeds
@@ -249,6 +274,7 @@ fn witness_time_restart() -> LCase {
     c.start = 1000;
     c.step = 10;
     c.ops = vec![LOp::Run, LOp::Run, LOp::Run];
+    c.snap = false;
     c
 }
 
